@@ -256,7 +256,7 @@ func runC03(r *Run, p *Prog) {
 					}
 					n++
 					rd, wr := termsOf(T, fs["reader"]), termsOf(T, fs["writer"])
-					okk := len(rd) == 1 && strings.HasPrefix(rd[0], "ext(call:exec.Cmd.StdoutPipe(") && len(wr) == 1 && strings.HasPrefix(wr[0], "ext(call:exec.Cmd.StdinPipe(")
+					okk := len(fs["reader"]) == 1 && pipeOrigin(T, fs["reader"][0], "exec.Cmd.StdoutPipe", 0) && len(fs["writer"]) == 1 && pipeOrigin(T, fs["writer"][0], "exec.Cmd.StdinPipe", 0)
 					r.Ob("P6", shortName(f), "bridge reads the child's stdout and writes its stdin", a.Pos(), okk, fmt.Sprintf("reader=%v writer=%v", rd, wr))
 				}
 			}
@@ -265,4 +265,24 @@ func runC03(r *Run, p *Prog) {
 			r.Unresolved("P6", "construction of the bridge pipe")
 		}
 	})
+}
+
+// pipeOrigin: v is result #0 of the named os/exec call, possibly wrapped in a repo struct literal that holds it.
+func pipeOrigin(T *Terms, v ssa.Value, call string, depth int) bool {
+	if depth > 3 {
+		return false
+	}
+	if strings.HasPrefix(strip(T.T(v)), "ext(call:"+call+"(") {
+		return true
+	}
+	if al := unwrapAlloc(v); al != nil {
+		for _, vals := range fieldStores(al) {
+			for _, x := range vals {
+				if pipeOrigin(T, x, call, depth+1) {
+					return true
+				}
+			}
+		}
+	}
+	return false
 }
